@@ -141,6 +141,14 @@ func metaVariant(m *rlwe.MetaData, r *eng.Rand, variant int) {
 	default:
 		m.Scale = rlwe.NewScale(1.5)
 	}
+	if variant%4 == 3 {
+		// a scale using the full 128-bit mantissa (what a CKKS ciphertext carries after a
+		// multiplication and a rescaling: scale^2 / q)
+		f := new(big.Float).SetPrec(128).SetInt(new(big.Int).Lsh(big.NewInt(1), 90))
+		f.Quo(f, new(big.Float).SetPrec(128).SetUint64(1152921504606846883+uint64(r.N(1000))*2))
+		f.Mul(f, new(big.Float).SetPrec(128).SetInt(new(big.Int).Lsh(big.NewInt(1), 45)))
+		m.Scale = rlwe.NewScale(f)
+	}
 	if variant >= 6 {
 		// scales whose decimal exponent has three digits (a CKKS scale after many multiplications
 		// without rescaling, or a tiny one)
